@@ -5,6 +5,7 @@ use std::io::{BufRead, Write};
 
 mod pure;
 mod rx;
+mod segs;
 mod mtu;
 mod txring;
 mod util;
@@ -15,6 +16,7 @@ pub struct St {
     pub mtu: librqbit_utp::mtu::SegmentSizes,
     pub tx: txring::TxSt,
     pub rx: rx::RxSt,
+    pub segs: segs::SegSt,
 }
 
 fn step(st: &mut St, line: &str) -> String {
@@ -26,6 +28,7 @@ fn step(st: &mut St, line: &str) -> String {
         Some((&"mtu", args)) => mtu::step_mtu(&mut st.mtu, args),
         Some((&"tx", args)) => txring::step_txring(&mut st.tx, args),
         Some((&"rx", args)) => rx::step_rx(&mut st.rx, args),
+        Some((&"seg", args)) => segs::step_segs(&mut st.segs, args),
         Some((&"rtte", args)) => pure::step_rtte(&mut st.rtte, args),
         _ => "bad-op".into(),
     }
@@ -42,6 +45,7 @@ fn main() {
         mtu: librqbit_utp::mtu::SegmentSizes::new(Default::default()),
         tx: txring::TxSt::new(16),
         rx: rx::RxSt::new(64, 8),
+        segs: segs::SegSt::new(0),
     };
     for line in stdin.lock().lines() {
         let line = line.unwrap();
